@@ -42,11 +42,8 @@ def init (bbox : Rect) (gridsize : Int) : Plane :=
 
 /-- `Plane._getrange`: the grid cells a box is filed under / looked up in. -/
 def getrange (p : Plane) (bbox : Rect) : List Key :=
-  let (x0, y0, x1, y1) := bbox
-  let x0 := min (max p.x0 x0) p.x1
-  let y0 := min (max p.y0 y0) p.y1
-  let x1 := max (min p.x1 x1) p.x0
-  let y1 := max (min p.y1 y1) p.y0
+  -- the clamping to the plane bounds is the regenerated `plane_clamp` (body of `Plane._granges`)
+  let (x0, y0, x1, y1) := plane_clamp p.x0 p.y0 p.x1 p.y1 bbox
   (drange y0 y1 p.gridsize).flatMap fun gy =>
     (drange x0 x1 p.gridsize).map fun gx => (gx, gy)
 
@@ -72,9 +69,13 @@ def cellCount (p : Plane) (bbox : Rect) : Nat :=
 
 /-- `Plane._cells`: the cells of a box, or `none` when there are more than `MAXCELLS`. -/
 def cells? (p : Plane) (bbox : Rect) : Option (List Key) :=
-  if PLANE_MAXCELLS < cellCount p bbox then none else some (getrange p bbox)
+  -- `nx`, `ny` and the comparison with `MAXCELLS` are the regenerated `plane_cells_over`
+  let (x0, y0, x1, y1) := plane_clamp p.x0 p.y0 p.x1 p.y1 bbox
+  if plane_cells_over (rStart x0 p.gridsize) (rStop x1 p.gridsize) (rStart y0 p.gridsize) (rStop y1 p.gridsize)
+  then none else some (getrange p bbox)
 
-/-- `Plane.add`: an object covering more than `MAXCELLS` cells goes to `_big`, the others into the grid. -/
+/-- `Plane.add`, the insertion proper (the method after its two guards, see `addPy`): an object covering more
+than `MAXCELLS` cells goes to `_big`, the others into the grid. -/
 def add (p : Plane) (o : PObj) : Plane :=
   let p' : Plane :=
     match cells? p (bboxOf o) with
@@ -94,7 +95,9 @@ def remove (p : Plane) (o : PObj) : Plane × Bool :=
   if o.id ∈ p.objs then ({ p' with objs := p.objs.erase o.id }, true)
   else (p', false)
 
-/-- The overlap test at the end of `Plane.find` (negated `continue` condition). -/
+/-- The overlap test at the end of `Plane.find` (negated `continue` condition).  Kept in this unfolded form
+because the layout lemmas of C09 unfold it; tied to the regenerated condition `plane_find_skip` by
+`Lemmas/Plane.lean: overlaps_eq_not_skip` (a `rfl` that an edit of the Python condition breaks). -/
 def overlaps (o : PObj) (q : Rect) : Bool :=
   let (x0, y0, x1, y1) := q
   !(decide (o.x1 ≤ x0) || decide (x1 ≤ o.x0) || decide (o.y1 ≤ y0) || decide (y1 ≤ o.y0))
@@ -124,6 +127,27 @@ def sortByKey (key : PObj → Nat) : List PObj → List PObj
 /-- `Plane.__iter__`. -/
 def iter (p : Plane) : List PObj :=
   p.seq.filter (fun o => o.id ∈ p.objs)
+
+/-- `Plane.__contains__`: membership in the set `_objs` (Python identity = the numeric `id`). -/
+def contains (p : Plane) (o : PObj) : Bool := decide (o.id ∈ p.objs)
+
+/-- `Plane.__len__`: `len(self._objs)`. -/
+def len (p : Plane) : Nat := p.objs.length
+
+/-- The re-add path of `Plane.add`: the stale entry of an object that was added before (and removed since)
+is dropped from `_seq`; `_order` is rebuilt as the 1-based position in `_seq` (which is what `rank` computes). -/
+def forget (p : Plane) (o : PObj) : Plane := { p with seq := p.seq.erase o }
+
+/-- The whole of `Plane.add` (since the repair of duplicates): a no-op for an object that is already in the
+index; an object that was added before is first forgotten (`obj in self._order` = it still has an entry in
+`_seq`); then the insertion proper (`add`, the rest of the method - it is what the layout model of C09
+calls, always with fresh objects, where `addPy = add`: `addPy_fresh`). -/
+def addPy (p : Plane) (o : PObj) : Plane :=
+  if o.id ∈ p.objs then p
+  else add (if o ∈ p.seq then forget p o else p) o
+
+/-- `Plane.extend`: `add` for every object, in order. -/
+def extend (p : Plane) (os : List PObj) : Plane := os.foldl addPy p
 
 /-- The candidates `find` looks at (`found` before it is sorted): the cells of the query plus `_big`, or -
 for a query over more than `MAXCELLS` cells - every live object; de-duplicated, overlap-filtered. -/
